@@ -319,6 +319,14 @@ class XMLReader(object):
         :param xml_file: file path to an XML input file or file like object.
         :returns: a parsed odml.Document.
         """
+        if isinstance(xml_file, StringIO):
+            # An in memory text stream holds text that is already decoded; lxml
+            # refuses it like a unicode string when it carries an XML encoding
+            # declaration (the first line of every saved file), see from_string.
+            doc = self.from_string(xml_file.read())
+            xml_file.close()
+            return doc
+
         try:
             root = ET.parse(xml_file, self.parser).getroot()
             if hasattr(xml_file, "close"):
